@@ -121,6 +121,21 @@ def check_instance(rp, sample_rng):
                 problems.append((sig, f"x'Qx+k = {a} but objective + rho*(|Ax-b|^2 + x'Rx) = {b} at x={x} "
                                       f"(feasibility={feas}, penalty_parameter={pp}, rho={rho_of(rp, feas, pp)})",
                                  dict(cfg, x=x, lhs=str(a), rhs=str(b))))
+    # the mode may be given as any truthy / falsy value (numpy booleans, 0 / 1): same QUBO as with the bool
+    import numpy as _np
+    by_cfg = {cfg: out for cfg, out in outs}
+    for flag in (0, 1, _np.bool_(False), _np.bool_(True)):
+        for pp in (None, 7):
+            out = fh.qubo_out(rp, flag, pp)
+            ref = by_cfg.get((bool(flag), pp))
+            if ref is None or not ref["ok"]:
+                continue
+            if (not out["ok"]) or out["Q"] != ref["Q"] or out["k"] != ref["k"]:
+                problems.append(("oracle/mode-flag",
+                                 f"get_qubo(feasibility={flag!r} [{type(flag).__name__}], penalty_parameter={pp}) differs from "
+                                 f"get_qubo(feasibility={bool(flag)}, penalty_parameter={pp}): the mode must not depend on the type of the flag",
+                                 {"feasibility": repr(flag), "penalty_parameter": pp}))
+                break
     return d, S, outs, problems
 
 
